@@ -2,7 +2,7 @@
    in pyatv/protocols/raop/audio_source.py (BufferedIOBaseWrapper, StreamReaderWrapper,
    StreamableIOBaseWrapper over BufferedIOBaseWrapper, StreamableSourceWrapper over
    StreamReaderWrapper, PatchedIceCastClient reduced to its buffer logic), as the code
-   stands after commits b9f861e, ff5b434 and 205aad4.
+   stands after commits b9f861e, ff5b434, 205aad4 and bdf53a0.
 
    BYTE STRINGS are run-length encoded: a chunk (o, l) is the l bytes o, o+1, ..., o+l-1
    ("the byte IS its name"), a byte string is a list of chunks.  Any byte string can be
@@ -133,17 +133,43 @@ Definition buf_protect (v : bool) (b : sbuf) : option sbuf :=
    everything that is left. *)
 Record wst := mkw { w_buf : sbuf; w_cur : N; w_len : N }.
 
-Definition src_amount (n : option N) (cap : option N) (w : wst) : N :=
+(* [full] = false: ONE reader.read(n) call, which returns min(n, what is left, cap) bytes.
+   [full] = true: StreamReaderWrapper._read_from_source(n) (bdf53a0), which keeps calling
+   reader.read(n - len(data)) until n bytes have arrived or a call returns nothing: whatever the
+   short reads of the individual calls are, min(n, what is left) bytes come out (nothing if the
+   calls are capped at 0, i.e. the reader reports the end).  [read_loop] below is the loop
+   itself; Proofs show it computes this closed form for every pattern of short reads.
+   n = None is read(-1): everything that is left, one call, in both cases. *)
+Definition src_amount_g (full : bool) (n : option N) (cap : option N) (w : wst) : N :=
   let avail := w_len w - w_cur w in
   match n with
   | None => avail
   | Some n => let m := N.min n avail in
-              match cap with None => m | Some c => N.min m c end
+              match cap with
+              | None => m
+              | Some c => if full then (if c =? 0 then 0 else m) else N.min m c
+              end
   end.
 
-Definition src_read (n : option N) (cap : option N) (w : wst) : data * wst :=
-  let k := src_amount n cap w in
+Definition src_read_g (full : bool) (n : option N) (cap : option N) (w : wst) : data * wst :=
+  let k := src_amount_g full n cap w in
   ((if k =? 0 then [] else [(w_cur w, k)]), mkw (w_buf w) (w_cur w + k) (w_len w)).
+
+Notation src_amount := (src_amount_g false).
+Notation src_read := (src_read_g false).
+
+(* _read_from_source(n), n >= 0, as a loop over the individual reader.read() calls: [caps] are the
+   short-read limits of the successive calls (None: the call returns all it was asked for), [avail]
+   what the source still has, [got] = len(data).  Returns the total number of bytes. *)
+Fixpoint read_loop (caps : list (option N)) (n avail got : N) : N :=
+  if n <=? got then got
+  else match caps with
+       | [] => got + N.min (n - got) avail            (* the remaining calls are not shortened *)
+       | c :: t =>
+           let k := match c with None => N.min (n - got) avail | Some c => N.min (N.min (n - got) avail) c end in
+           if k =? 0 then got                           (* `if not chunk: break` *)
+           else read_loop t n (avail - k) (got + k)
+       end.
 
 Definition with_buf (w : wst) (b : sbuf) : wst := mkw b (w_cur w) (w_len w).
 
@@ -184,11 +210,11 @@ Definition srw_read (num : option N) (cap : option N) (w : wst) : data * wst :=
   match num with
   | Some 0 => ([], w)
   | _ =>
-    if srw_bypass w then src_read num cap w                 (* straight from the reader *)
+    if srw_bypass w then src_read_g true num cap w          (* straight from the reader (_read_from_source) *)
     else
       let to_read := match num with None => buf_size (w_buf w) | Some n => n end in
       let from_source := N.min to_read (buf_remaining (w_buf w)) in
-      let '(d, w') := src_read (Some from_source) cap w in
+      let '(d, w') := src_read_g true (Some from_source) cap w in
       let w1 := with_buf w' (snd (buf_add d (w_buf w'))) in
       let '(r, b') := buf_get to_read (w_buf w1) in (r, with_buf w1 b')
   end.
